@@ -160,6 +160,9 @@ def same_schema(a, b):
 
 # --------------------------------------------------------------------------- values on real messages
 
+LAZY = [False]     # when set, values equal to the default are not assigned (states reachable by `add(discriminator=...)`)
+
+
 def assign(msg, t, v):
     """store abstract value v (of schema t) into real message msg via the public API"""
     if isinstance(t, W.Struct):
@@ -171,6 +174,8 @@ def assign(msg, t, v):
         disc, val = v
         msg.discriminator = disc
         arm = [a for a in t.arms if a.disc == disc][0]
+        if LAZY[0] and val == W.default_value(arm.ty):
+            return              # leave the arm value unassigned: it reads as the default
         _assign_field(msg, arm.name, arm.ty, val)
     else:
         raise TypeError(t)
@@ -226,7 +231,8 @@ def _view_field(x, ty):
     if isinstance(ty, W.Array):
         return [_view_field(e, ty.elem) for e in x]
     if isinstance(ty, W.Bytes):
-        return bytes(x)
+        # a never-assigned dynamic/limited bytes field reads as the str '' (prophy's documented default): the empty value
+        return b'' if isinstance(x, str) and not x else bytes(x)
     if isinstance(ty, W.Float):
         return float(x)
     return int(x)
